@@ -179,6 +179,14 @@ func pct(t *rapid.T, p int, label string) bool {
 // Coord draws one coordinate of the given stride.
 func Coord(t *rapid.T, stride, classes int) []model.F {
 	c := make([]model.F, stride)
+	// a whole coordinate of the empty-point marker: a real (if odd) position for a
+	// setter, the encoding of POINT EMPTY for a decoder
+	if classes&CanonNaN != 0 && stride > 0 && rapid.IntRange(0, 39).Draw(t, "allcanon") == 0 {
+		for i := range c {
+			c[i] = model.F(CanonicalNaN)
+		}
+		return c
+	}
 	for i := range c {
 		c[i] = Float(t, classes)
 	}
@@ -193,6 +201,24 @@ func count(t *rapid.T, max int, label string) int {
 	return rapid.IntRange(0, max).Draw(t, label)
 }
 
+// longSize draws the length of a long line or ring: 65..lm coordinates, or (one
+// time in four) a length that puts the number of coordinates or of ordinates at,
+// just below or just above a power of two between 256 and 2048 - chunk sizes,
+// pooled buffers and algorithm switches sit at such constants.
+func longSize(t *rapid.T, lm, stride int, label string) int {
+	if rapid.IntRange(0, 3).Draw(t, label+"pow2") != 0 {
+		return rapid.IntRange(65, lm).Draw(t, label)
+	}
+	n := rapid.SampledFrom([]int{256, 512, 1024, 2048}).Draw(t, label+"p") + rapid.IntRange(-1, 1).Draw(t, label+"d")
+	if stride > 1 && rapid.Bool().Draw(t, label+"ord") {
+		n = (n + stride - 1) / stride // the ordinate count is at the power of two
+	}
+	if n < 65 {
+		n = 65
+	}
+	return n
+}
+
 // Line draws a coordinate list. With valid it has 0 or >= 2 points.
 func Line(t *rapid.T, o *TreeOpts, stride int) [][]model.F {
 	if pct(t, o.PEmpty, "emptyline") {
@@ -204,7 +230,7 @@ func Line(t *rapid.T, o *TreeOpts, stride int) [][]model.F {
 		if lm == 0 {
 			lm = 300
 		}
-		n = rapid.IntRange(65, lm).Draw(t, "nlong")
+		n = longSize(t, lm, stride, "nlong")
 	}
 	if o.Valid && n < 2 {
 		n = 2
@@ -228,7 +254,7 @@ func Ring(t *rapid.T, o *TreeOpts, stride int) [][]model.F {
 		if lm == 0 {
 			lm = 300
 		}
-		n = rapid.IntRange(65, lm).Draw(t, "nlongring")
+		n = longSize(t, lm, stride, "nlongring")
 	}
 	out := make([][]model.F, n+1)
 	for i := 0; i < n; i++ {
